@@ -124,6 +124,7 @@ type T struct {
 	key    string
 	failed bool
 	nmsgs  int
+	ntDone bool
 }
 
 func caseSeed(seed int64, prop, stream string, index int) int64 {
@@ -190,6 +191,10 @@ func (t *T) Seen(set, key string) {
 
 // Nontrivial marks the current case as non-trivial; key identifies the case content for distinctness.
 func (t *T) Nontrivial(key []byte) {
+	if t.ntDone {
+		return // one entry per case: distinct_nontrivial never exceeds the number of cases
+	}
+	t.ntDone = true
 	h := fnv.New64a()
 	h.Write([]byte(t.Stream))
 	h.Write([]byte{0})
@@ -217,8 +222,15 @@ func Guard(f func()) (panicked string) {
 			lines := strings.Split(st, "\n")
 			var keep []string
 			for i := 0; i < len(lines) && len(keep) < 12; i++ {
-				if strings.Contains(lines[i], "tdewolff/parse") {
-					keep = append(keep, strings.TrimSpace(lines[i]))
+				if l := strings.TrimSpace(lines[i]); strings.HasPrefix(l, "github.com/tdewolff/parse") {
+					if j := strings.IndexByte(l, '('); j > 0 && !strings.Contains(l[:j], ".go") {
+						if k := strings.LastIndex(l[:j], "/"); k >= 0 {
+							l = l[k+1 : j]
+						}
+					}
+					if len(keep) < 6 {
+						keep = append(keep, l)
+					}
 				}
 			}
 			panicked = fmt.Sprintf("panic: %v [%s]", r, strings.Join(keep, " <- "))
